@@ -71,11 +71,13 @@ ScriptA == <<
   << Cand("w3a", "c1", "own", <<S("c1", "own")>>) >>,
   << Pol("w4a", "p1", M3 \o <<S("m4", "own")>>) >> >>
 
-(* B: m4 registers and joins with its other key; an empty block at height 4 *)
+(* B: m4 registers and joins with its other key, m3 leaves, two candidates are alive at *)
+(* height 5; an empty block at height 4                                                 *)
 ScriptB == <<
   << Cand("w1a", "m4", "alt", <<S("m4", "alt")>>), Cand("w1b", "c2", "own", <<S("c2", "own")>>) >>,
   << Join("w2a", "m4", 2, <<S("m4", "alt")>> \o M3) >>,
-  << Cand("w3a", "c1", "own", <<S("c1", "own")>>), Disjoin("w3b", "m3", 1, <<S("m3", "own")>>) >>,
+  << Cand("w3a", "c1", "own", <<S("c1", "own")>>), Disjoin("w3b", "m3", 1, <<S("m3", "own")>>),
+     Cand("w3c", "x2", "own", <<S("x2", "own")>>) >>,
   << >> >>
 
 Script == IF World = "A" THEN ScriptA ELSE ScriptB
@@ -97,6 +99,7 @@ Catalogue == <<
   Join("j11", "c1", 4, <<S("c1", "own"), S("m1", "own"), S("m2", "own"), S("m3", "forged")>>),
   Join("j12", "c1", 4, <<S("c1", "own"), S("m2", "own"), S("m3", "own"), S("m4", K4), S("m1", "own")>>),
   Join("j13", "c1", 4, <<S("m1", "own"), S("m2", "own"), S("m4", K4x), S("c1", "own")>>),
+  Join("jx2", "x2", 4, <<S("x2", "own")>> \o M4),
   \* candidates
   Cand("cx1", "x1", "own", <<S("x1", "own")>>),
   Cand("cx2", "x2", "own", <<S("x2", "own")>>),
@@ -487,6 +490,6 @@ WorkerBound == phase = "run" => Cardinality(jobs) <= w
 (* sanity of the world (makes the catalogue's intent explicit; vacuity guard) *)
 WorldOK ==
   /\ Len(prior.members) = (IF World = "A" THEN 4 ELSE 3)
-  /\ AliveSet(prior, H) = {"c1"}
+  /\ AliveSet(prior, H) = (IF World = "A" THEN {"c1"} ELSE {"c1", "x2"})
   /\ prior.policy = (IF World = "A" THEN "p1" ELSE "p0")
 =============================================================================
